@@ -519,6 +519,12 @@ func checkC09(v *tunView, m *connModel) {
 				if t0 >= 0 && ep.End.T-(t0+c.T) >= -eps && ep.End.T-(t0+c.T) <= eps {
 					closing = true
 				}
+				for _, y := range v.tx {
+					// ... or a heartbeat request that could not even be written
+					if y.Werr && y.F.OK && y.F.Svc == svcConnStateReq && y.F.Channel == ep.Channel && y.At.T <= ep.End.T+eps && ep.End.T-y.At.T <= eps {
+						closing = true
+					}
+				}
 				if closing {
 					e.Probe("disconnect-request-met-a-failed-heartbeat")
 				}
